@@ -518,8 +518,8 @@ PROPS = {
             "conn": [("big", 1048576, None, 4, 14)], "conc": [("base", 200)], "slow": True,
             "monitor_kinds": ["STUCK", "SLOW"], "relevant": "RMWT"},
     "C02": {"seq": [("cas", 1024, 1000000, 15, 40), ("cas", 1024, None, 80, 50), ("mix", 1024, None, 30, 40), ("ttl", 1024, None, 30, 40),
-                    ("counter", 1024, None, 30, 40)], "conc": [("base", 200)], "pol": 100,
-            "monitor_kinds": ["STUCK", "NONLIN", "VANISH"], "relevant": "RMWTP"},
+                    ("counter", 1024, None, 30, 40)], "conc": [("base", 200), ("rmw", 100)], "pol": 100,
+            "monitor_kinds": ["STUCK", "NONLIN", "VANISH"], "known_classes": True, "known_from": "C04", "relevant": "RMWTP"},
     "C03": {"seq": [("cas", 1024, None, 20, 30)], "conc": [("base", 500)], "pol": 150, "relevant": "RMTP"},
     "C04": {"seq": [("counter", 1024, None, 20, 30)], "conc": [("rmw", 500)], "pol": 40, "relevant": "RMTP",
             "known_classes": True},
@@ -570,7 +570,8 @@ PROPS = {
                     ("crowd", 600, 1000, 10, 120)],
             "pol": 150, "relevant": "UMRP", "monitor_kinds": ["ACCT", "BOUND", "STUCK", "NONLIN", "VANISH"]},
     "C17": {"seq": [("mix", 1024, None, 10, 20)], "limit": 8, "mlimit": 6, "cfg": 6, "relevant": "VS", "no_minimize": True},
-    "C20": {"seq": [("mix", 1024, 1000000, 30, 40), ("mix", 1024, None, 10, 30)], "cfg": 8, "mlimit": 4, "relevant": "RSCT"},
+    "C20": {"seq": [("mix", 1024, 1000000, 30, 40), ("mix", 1024, None, 10, 30)], "cfg": 8, "mlimit": 4, "pol": 60,
+            "monitor_kinds": ["ACCT", "BOUND", "STUCK", "NONLIN", "VANISH"], "relevant": "RSCTPUM"},
     "C18": {"seq": [("cuts", 1024, None, 60, 30), ("malformed", 1024, None, 40, 30)],
             "conn": [("cuts", 1024, None, 30, 25), ("malformed", 1024, None, 30, 25), ("mix", 1024, None, 20, 25),
                      ("idle", 1024, None, 3, 14)],
